@@ -127,8 +127,14 @@ def check_history(cfg, seed, history):
     with tmpdir("wbmc_c10_") as d:
         for m in modes:
             per_mode[m] = run_history(cfg, seed, history, m, d)
-        if len(history) == 0:
-            pass  # with adpt_num_iter=0 and no restart the per-K results are discarded ("memory" mode covers it)
+        try:
+            file_snaps = refine.snapshots_from_files(os.path.join(d, "allow_restart", "klist"))
+        except Exception:
+            file_snaps = {}
+        # live K-list not found on the stack (refactored run()): fall back to the restart files of the allow_restart run
+        for m in modes:
+            sn, saved, returned, system = per_mode[m]
+            per_mode[m] = ([(it, s if s is not None else file_snaps.get(it), data) for it, s, data in sn], saved, returned, system)
     ref_snaps = per_mode["memory"][0]
     for m in modes:
         snaps, saved, returned, system = per_mode[m]
@@ -137,7 +143,7 @@ def check_history(cfg, seed, history):
             return ({"ok": False, "key": f"run:iterations_saved:{m}", "detail": f"{tag}: savedata iterations {[s[0] for s in snaps]}"}, None)
         for (it, snap, data) in snaps:
             if snap is None:
-                return ({"ok": False, "key": "harness:no_K_list_in_frame", "detail": tag}, None)
+                return ({"ok": False, "key": "harness:no_K_list_found", "detail": tag}, None)
             wsum = sum(f for _, f, _ in snap)
             if abs(wsum - 1) > 1e-12 or min(f for _, f, _ in snap) < 0:
                 return ({"ok": False, "key": f"run:weights_not_partition:{m}", "detail": f"{tag} iter={it} sum={wsum!r}"}, None)
